@@ -17,6 +17,8 @@ Inductive stmt : Type :=
 | MapRead (field : string)            (* m.cache[k], len(m.cache), ... *)
 | MapWrite (field : string)           (* m.cache[k] = v, delete(m.cache,k), m.cache = ... *)
 | If (th el : list stmt)              (* both branches; the condition's own events precede the If *)
+| Call (body : list stmt)             (* inlined call of another method of the same engine: the callee's Return
+                                         (and its own deferred calls) end the callee only *)
 | Return.                             (* return / panic / falling off the end: runs the deferred calls *)
 
 Definition skeleton := list stmt.
@@ -45,7 +47,7 @@ Definition simple_events (s : stmt) : list event :=
   | Unlock => [EvUnlock]
   | MapRead _ => [EvRead]       (* every non-immutable field is one location `cache`: conservative *)
   | MapWrite _ => [EvWrite]
-  | Defer _ | If _ _ | Return => [EvBad]
+  | Defer _ | If _ _ | Call _ | Return => [EvBad]
   end.
 
 (* A control path under construction: events so far (newest first), deferred events
@@ -63,6 +65,12 @@ Fixpoint run_stmt (s : stmt) (p : pst) {struct s} : list pst :=
       ++
       (fix go (l : list stmt) (ps : list pst) {struct l} : list pst :=
          match l with [] => ps | s' :: l' => go l' (flat_map (run_stmt s') ps) end) el [p]
+  | Call body =>
+      (* run the callee with its own (empty) list of deferred calls; when it returns or falls off
+         its end its deferred calls have run, and the caller continues with its own *)
+      map (fun q => mkpst (if p_done q then p_tr q else rev_append (p_dfr q) (p_tr q)) (p_dfr p) false)
+          ((fix go (l : list stmt) (ps : list pst) {struct l} : list pst :=
+              match l with [] => ps | s' :: l' => go l' (flat_map (run_stmt s') ps) end) body [mkpst (p_tr p) [] false])
   | _ => [mkpst (rev_append (simple_events s) (p_tr p)) (p_dfr p) false]
   end.
 
